@@ -81,6 +81,11 @@ check("C12", "exploration",
       "Trusted: the harness. Nesting beyond the stated depths is outside the quantifier. A hang that does not reproduce in isolation is inconclusive (exit 2).",
       "property-based robustness testing (generated + mutated inputs) with diagnostic-location oracle; child-process isolation", "DESIGN.md §4 C12")
 
+check("C14", "model_checking",
+      "Harness-owned schedules of the real ThreadPool through cfg-guarded blocking probes: explicit-state depth-first enumeration of ALL interleavings (at probe granularity) of the acceptor's count/enqueue/grow steps with every worker's wait/dequeue/run/mark-idle steps, memoised on the abstract pool state, for 7 configurations (quick) / all initial 1..3 x max 1..4 x jobs 1..5 (thorough, state cap 60000 per configuration reported in evidence); every explored edge is executed on the real pool (no separate model of the pool's decisions: the controller follows the implementation's reported growth decision and only relies on std mpsc/Mutex hand-off semantics). Invariants at every state: active jobs <= max; at quiescent states queue empty or max active; every job runs once. Plus proptest random schedules on configurations up to 8 workers / 12 jobs (shrinking) and probes through real listen() counting concurrently served connections.",
+      "Trusted: the probes sit where the commit places them (a change that moves shared-state accesses across a probe is explored at the new granularity); std::sync::mpsc/Mutex semantics; 10 s arrival timeout -> trace validation failure = exit 2. Interleavings finer than probe granularity are not explored.",
+      "stateful model checking of the real implementation (DFS over controlled schedules) + proptest random schedules", "DESIGN.md §4 C14, §5a")
+
 ALL = ["C%02d" % i for i in range(1, 21)]
 
 NOT_BUILT_REASON = "check not built yet in this round (design in DESIGN.md §4); not claimed until it exists and is validated"
